@@ -158,6 +158,15 @@ def closures_of(prog, b):
             continue
         seen.add(x.id)
         for bl in x.blocks:
+            # fn items of the workspace passed as values (`.map(helper)`, `.position(is_opt)`): they play the part of a closure
+            t0 = bl["term"]
+            if t0["t"] == "call":
+                for a in t0["args"]:
+                    if a.get("o") == "const" and a["k"].get("c") == "fn" and isinstance(a["k"].get("callee"), dict):
+                        c = prog.bodies.get(a["k"]["callee"].get("id"))
+                        if c is not None and c.id not in out and c.crate == b.crate:
+                            out[c.id] = c
+                            work.append(c)
             for s in bl["stmts"]:
                 if s["s"] == "assign" and s["rv"]["k"] == "agg" and s["rv"].get("ak") in ("closure", "coroutine"):
                     c = prog.bodies.get(s["rv"].get("def"))
